@@ -201,7 +201,6 @@ fn with_hooks<R>(f: impl FnOnce(&mut dyn Hooks) -> R) -> Option<R> {
 pub struct Abandon;
 
 pub fn abandon() -> ! {
-    abort_commands();
     std::panic::resume_unwind(Box::new(Abandon));
 }
 
